@@ -102,7 +102,7 @@ def build(case):
         alg = sp.alg.GradientMethod(lambda v: Am.conj().T @ (Am @ v - y), x, alpha, proxg=proxg,
                                     accelerate=case.get("accelerate", False), max_iter=mi, tol=0)
         # the momentum counter t is not part of the iterate: once x == z is a fixed point its value is irrelevant
-        return alg, (lambda: [alg.x] + ([alg.z] if alg.accelerate else [])), nobreak, {}
+        return alg, (lambda: [alg.x] + ([alg.z] if alg.accelerate else [])), nobreak, {"held": {"x": x}}
     if k == "ConjugateGradient":
         B = _mat(seed, n + 1, n, cplx)
         kind = case.get("spd", "pd")
@@ -114,7 +114,7 @@ def build(case):
             b = np.zeros(n, dt)
         x = np.zeros(n, dt)
         alg = sp.alg.ConjugateGradient(lambda v: H @ v, b, x, max_iter=mi, tol=0)
-        return alg, (lambda: [alg.x]), (lambda: bool(alg.not_positive_definite)), {}
+        return alg, (lambda: [alg.x]), (lambda: bool(alg.not_positive_definite)), {"held": {"x": x}}
     if k == "PDHG":
         Am = _mat(seed, m, n, cplx)
         y = _vec(seed, m, cplx).astype(dt)
@@ -154,7 +154,7 @@ def build(case):
                 sigma[rz.integers(0, m)] = 0.0
         alg = sp.alg.PrimalDualHybridGradient(proxfc, proxg, lambda v: Am @ v, lambda v: Am.conj().T @ v, x, u,
                                               tau, sigma, max_iter=mi, tol=0, **kw)
-        return alg, (lambda: [alg.x, alg.u, alg.x_ext]), nobreak, {}
+        return alg, (lambda: [alg.x, alg.u, alg.x_ext]), nobreak, {"held": {"x": x, "u": u}}
     if k == "AltMin":
         st_ = {"a": np.zeros(2), "b": np.ones(2)}
 
@@ -180,7 +180,7 @@ def build(case):
                 x[:] = x - 0.2 * gx
         alg = sp.alg.AugmentedLagrangianMethod(minL, lambda xx: xx - 2, lambda xx: np.array([np.sum(xx) - 1]), x, u, v, mu,
                                                max_iter=mi)
-        return alg, (lambda: [alg.x, alg.u, alg.v]), nobreak, {}
+        return alg, (lambda: [alg.x, alg.u, alg.v]), nobreak, {"held": {"x": x, "u": u, "v": v}}
     if k == "ADMM":
         c = _vec(seed, n, False)
         x = np.zeros(n)
@@ -312,6 +312,11 @@ class Sim:
                 self.r.fail("update-raises:%s" % k, "%s: %s" % (type(e).__name__, e))
                 return
             self.n_updates += 1
+            for nm, arr in (self.info.get("held") or {}).items():
+                # "returns the solution the algorithm holds": the arrays the caller passed ARE the algorithm's state
+                if getattr(alg, nm, None) is not arr:
+                    self.r.fail("held-array-rebound:%s:%s" % (k, nm), "after update %d alg.%s is no longer the array the caller "
+                                "passed (the caller's array is no longer updated)" % (self.n_updates, nm))
             if alg.iter != self.n_updates:
                 self.r.fail("counter:%s" % k, "after %d update() calls alg.iter = %s" % (self.n_updates, alg.iter))
             if self.n_updates > mi:
@@ -523,7 +528,18 @@ def check_power(case):
     while not alg.done():
         alg.update()
         est.append(float(alg.max_eig))
-    r.check(len(est) == case["max_iter"] == alg.iter, "power:counter", "%d updates, iter %s, max_iter %d" % (len(est), alg.iter, case["max_iter"]))
+    r.check(len(est) == alg.iter and len(est) <= case["max_iter"], "power:counter", "%d updates, iter %s, max_iter %d" % (len(est), alg.iter, case["max_iter"]))
+    if len(est) < case["max_iter"]:
+        # stopped early: allowed only if a further update leaves the vector where it is
+        x_now = np.array(alg.x, copy=True)
+        H = info["H"]
+        y = H @ x_now
+        ny = float(np.linalg.norm(y))
+        x_next = y / ny if ny > 0 else y
+        mv = float(np.linalg.norm(x_next - x_now)) / (1.0 + float(np.linalg.norm(x_now)))
+        r.check(mv <= 1e-10, "power:early-stop:not-a-fixed-point", "stopped after %d of %d updates, yet one more power step moves the "
+                "vector by %.3e (relative)" % (len(est), case["max_iter"], mv))
+        r.label("power:early-stop")
     for j in range(1, len(est)):
         if j >= 2 and not est[j] >= est[j - 1] * (1 - 1e-12) - 1e-300:
             r.fail("power:not-monotone", "estimate %.17g after update %d < %.17g after update %d" % (est[j], j + 1, est[j - 1], j))
